@@ -145,8 +145,10 @@ def rand_stmts(rng, depth, budget):
             out.append({"s": "block", "tag": rng.choice(["div", "span", "ul", "x-t"]), "body": rand_stmts(rng, depth - 1, budget)})
         elif r < 0.8:
             out.append({"s": "raise"})
-        elif r < 0.86:
+        elif r < 0.84:
             out.append({"s": "reenter", "which": rng.randint(0, 3)})
+        elif r < 0.87:
+            out.append({"s": "api", "m": rng.choice(["insert0", "append", "extend", "reassign", "clear_attrs", "iadd"])})
         elif r < 0.9:
             # user code replaces the hook inside the block and leaves (normally or by an exception) without restoring it
             out.append({"s": "sethook", "then_raise": rng.random() < 0.6})
@@ -308,6 +310,31 @@ class Run:
                 raise Boom("program raise")
             elif k == "reenter":
                 self.reenter(st)
+            elif k == "api":
+                if self.active:
+                    t = self.active[-1]
+                    mdl = self.model[id(t)]
+                    m = st["m"]
+                    self.ctx.count("api_calls_inside_block")
+                    if m == "insert0":
+                        x = ht.Tag("i", "ins")
+                        t.insert(0, x)
+                        mdl.insert(0, x)
+                    elif m == "append":
+                        x = ht.Tag("i", "app")
+                        t.append(x, "s")
+                        mdl.extend([x, "s"])
+                    elif m == "extend":
+                        t.extend(["e1", "e2"])
+                        mdl.extend(["e1", "e2"])
+                    elif m == "reassign":
+                        t.children = ht.TagList(*list(t.children))
+                    elif m == "iadd":
+                        t.children += ["ia"]
+                        mdl.append("ia")
+                    else:
+                        t.attrs["data-in-block"] = "1"
+                        t.attrs.clear()
             elif k == "sethook":
                 if self.active:
                     sys.displayhook = Recorder()  # a foreign hook; the block's exit must still restore the entry hook
